@@ -65,9 +65,7 @@ var expectedPacketType = map[state]map[mqttp.Type]bool{
 		mqttp.PUBREL:      true,
 		mqttp.PUBCOMP:     true,
 		mqttp.SUBSCRIBE:   true,
-		mqttp.SUBACK:      true,
 		mqttp.UNSUBSCRIBE: true,
-		mqttp.UNSUBACK:    true,
 		mqttp.PINGREQ:     true,
 		mqttp.AUTH:        true,
 		mqttp.DISCONNECT:  true,
@@ -79,9 +77,7 @@ var expectedPacketType = map[state]map[mqttp.Type]bool{
 		mqttp.PUBREL:      true,
 		mqttp.PUBCOMP:     true,
 		mqttp.SUBSCRIBE:   true,
-		mqttp.SUBACK:      true,
 		mqttp.UNSUBSCRIBE: true,
-		mqttp.UNSUBACK:    true,
 		mqttp.PINGREQ:     true,
 		mqttp.AUTH:        true,
 		mqttp.DISCONNECT:  true,
